@@ -8,7 +8,7 @@ import (
 	rt "github.com/zeromicro/go-zero/internal/verifrt"
 )
 
-//verif:entry tier=quick,thorough cover=panicked,blocked
+//verif:entry dpor tier=quick,thorough cover=panicked,blocked
 //verif:doc TaskRunner: concurrency 1..2, 3 tasks (each may panic, symbolic flag), Schedule from the main goroutine, every interleaving: gauge inside tasks <= concurrency; after Wait the slot channel is empty.
 func Verif_C05_TaskRunner() {
 	c := rt.Choose("concurrency", 2) + 1
@@ -39,7 +39,7 @@ func Verif_C05_TaskRunner() {
 	rt.Assert(gauge == 0, "no task is still inside the guarded region")
 }
 
-//verif:entry tier=quick,thorough cover=busy,accepted,holderpanicked
+//verif:entry dpor tier=quick,thorough cover=busy,accepted,holderpanicked
 //verif:doc TaskRunner.ScheduleImmediately: concurrency 1..2, k tasks holding their slot, one ScheduleImmediately: ErrTaskRunnerBusy iff k = concurrency, and then the task never runs and no slot/WaitGroup count is leaked.
 func Verif_C05_ScheduleImmediately() {
 	c := rt.Choose("concurrency", 2) + 1
